@@ -1,9 +1,11 @@
 import IcyVerif.Drv.BinFormats
+import IcyVerif.Drv.BinLayers
 open IcyVerif.Drv
 
 def dispatch (line : String) : String :=
   match line.trimAscii.toString.splitOn " " with
   | "binformats" :: rest => BinFormats.handle rest
+  | "binlayers" :: rest => BinLayers.handle rest
   | _ => "bad-op"
 
 partial def loop (h : IO.FS.Stream) (out : IO.FS.Stream) : IO Unit := do
